@@ -39,6 +39,8 @@ type Client struct {
 	SyncPct   int
 	NoTx      bool
 	LastKinds []string
+	// TxProblem is the first read inside a transaction that did not return the transaction's own latest write.
+	TxProblem *ReadProblem
 }
 
 // NewClient creates a client over db.
@@ -175,6 +177,35 @@ func (c *Client) Write() error {
 					hb.Discard = true
 					hb.Kind = "transaction(discarded after write error)"
 					return err
+				}
+			}
+			// read some of the transaction's own writes back through the transaction (this also pulls blocks of
+			// the tables the transaction has flushed so far into the block cache)
+			for j := r.Intn(4); j > 0 && len(hb.Ops) > 1; j-- {
+				o := hb.Ops[1+r.Intn(len(hb.Ops)-1)]
+				last := o
+				for _, x := range hb.Ops {
+					if bytes.Equal(x.K, o.K) {
+						last = x
+					}
+				}
+				got, gerr := tr.Get(last.K, nil)
+				if gerr != nil && gerr != leveldb.ErrNotFound {
+					c.Stats["reads_failed_inside_transactions"]++
+					continue
+				}
+				c.Stats["reads_ok_inside_transactions"]++
+				if ok := gerr == nil; ok == last.Del || ok && !bytes.Equal(got, last.V) {
+					if c.TxProblem == nil {
+						rp := &ReadProblem{Key: fmt.Sprintf("%.80x", last.K), Got: "absent", Want: []string{"absent (deleted earlier in this transaction)"}}
+						if ok {
+							rp.Got = short(got)
+						}
+						if !last.Del {
+							rp.Want = []string{short(last.V) + " (written earlier in this transaction)"}
+						}
+						c.TxProblem = rp
+					}
 				}
 			}
 			if r.Intn(5) == 0 {
